@@ -157,6 +157,14 @@ def threads_of(text):
     return drivers, ['w%d' % i for i in range(nw)], ['nt%d' % i for i in range(nnt)]
 
 
+# several programs model-checked in ONE TLC run (one JVM start): the initial states are the union
+GROUPS = {
+    'g18': ['exc', 'pool', 'newthread'],
+    'g19': ['wall0', 'wany1', 'wall1', 'wallts', 'tset'],
+    'g20': ['timed', 'timed_d'],
+}
+
+
 def write_mc(path):
     d = os.path.dirname(path)
     with open(path, 'w') as f:
@@ -169,7 +177,25 @@ def write_mc(path):
             f.write('Workers_%s == {%s}\nNTs_%s == <<%s>>\nThreads_%s == {%s}\n\n' % (
                 k, ', '.join('"%s"' % w for w in ws), k, ', '.join('"%s"' % n for n in nts), k,
                 ', '.join('"%s"' % n for n in dr + ws + nts)))
+        for gname, members in GROUPS.items():
+            ws, nts, names = set(), [], set()
+            for k in members:
+                dr, w, nt = threads_of(MC[k])
+                ws |= set(w)
+                names |= set(dr)
+                if len(nt) > len(nts):
+                    nts = nt
+            f.write('\\* %s\nInit_%s == %s\n' % (' + '.join(members), gname, ' \\/ '.join('Init_' + k for k in members)))
+            f.write('Workers_%s == {%s}\nNTs_%s == <<%s>>\nThreads_%s == {%s}\n\n' % (
+                gname, ', '.join('"%s"' % w for w in sorted(ws)), gname, ', '.join('"%s"' % n for n in nts), gname,
+                ', '.join('"%s"' % n for n in sorted(names) + sorted(ws) + nts)))
         f.write('=============================================================================\n')
+    for gname, members in GROUPS.items():
+        for fixed in ((False, True) if any('wany' in MC[k] for k in members) else (False,)):
+            with open(os.path.join(d, 'MC_%s%s.cfg' % (gname, '_fixed' if fixed else '')), 'w') as f:
+                f.write('CONSTANTS\n  Workers <- Workers_%s\n  NTs <- NTs_%s\n  ThreadNames <- Threads_%s\n  WyFix = %s\n'
+                        '  AllowSpurious = FALSE\nINIT Init_%s\nNEXT Next\nCHECK_DEADLOCK TRUE\nINVARIANTS %s\n'
+                        % (gname, gname, gname, 'TRUE' if fixed else 'FALSE', gname, INVARIANTS))
     for k, v in MC.items():
         for fixed in ((False, True) if 'wany' in v else (False,)):
             with open(os.path.join(d, 'MC_%s%s.cfg' % (k, '_fixed' if fixed else '')), 'w') as f:
